@@ -43,7 +43,9 @@ def plans_for(prog, rnd, quick):
                         if quick and rnd.random() < .35 and mode != "default":
                             continue
                         calls.append(dict(base, mode=mode, nreq=nreq, nresp=nresp, status=rnd.choice(STATUSES), async_source=rnd.random() < .4,
-                                          default_last=rnd.random() < .3))
+                                          default_last=rnd.random() < .3,
+                                          reuse=me["cs"] and me["ss"] and mode == "ok" and nreq > 0 and rnd.random() < .4,
+                                          handler_kind=rnd.choice(["agen", "agen", "channel", "aiter"]) if me["ss"] and mode == "ok" else "agen"))
     plans = []
     stub_combos = list(itertools.product([False, True], repeat=3))
     call_combos = list(itertools.product([False, True], repeat=3))
@@ -119,7 +121,7 @@ def run(ctx):
     ctx.rule = ("generated services (a fixed two-service program with all four cardinalities, re-cased method names, cross-package and "
                 "google.protobuf request / response types, two services sharing a method name; plus services of the C03 program generator): "
                 "every method x handler {overridden ok, overridden raising GRPCError(status), not overridden} x request stream length 0..2 x "
-                "response stream length 0..2 x sync / async request source x stub-level and call-level timeout / deadline / metadata in "
+                "response stream length 0..2 x sync / async request source x (bidi) the request source being a long-lived AsyncChannel that an earlier, cancelled call had been reading from x server-streaming handler written as an async generator / returning an AsyncChannel fed by a producer task / returning a plain async-iterator object x stub-level and call-level timeout / deadline / metadata in "
                 "{None, set} and call-level explicit empty metadata ({} / [] / ()) / zero timeout; each call is made in-process over grpclib.testing.ChannelFor; non-trivial = streaming or non-default kwargs")
     ctx.assumptions = ["grpclib 0.4.9 in-process channel (grpclib.testing.ChannelFor) as transport",
                        "the deadline seen by the server is compared in units of 1000 s (call 2000|8000 / 4000|9000 s, stub 5000 / 6000 s), so timing jitter cannot matter"]
